@@ -26,6 +26,8 @@ def contract(expression: Expression) -> Expression:
         and isinstance(expression.denominator, Probability)
         and not expression.numerator.parents
         and not expression.denominator.parents
+        # both must be probabilities of the same kind, in the same population
+        and expression.numerator._new(expression.denominator.distribution) == expression.denominator
         and set(expression.denominator.children).issubset(expression.numerator.children)
     ):
         return expression
